@@ -5,7 +5,8 @@
 // before it is executed, so that a sanitizer abort or a hang is attributed to the job.
 //
 //   {"k":"seed","seed":i}                      every registered parser on the seed and its descendants
-//   {"k":"mut","seed":i,"off":n,"steps":[..]}  apply a mutation plan of XmlMutate, then as above (+ client)
+//   {"k":"mut","seed":i,"off":n,"anchor":a,"steps":[..]}  a plan of XmlMutate's abstract tree, anchored at an element
+//   {"k":"pos","seed":i,"heavyEvery":k}        every one-step move at every element/attribute/text position of the seed
 //   {"k":"subst","seed":i,"nrand":n}           value substitution at probe-confirmed free-text slots
 //   {"k":"obj","cls":name,"map":r,"vals":[..]} object built through setters along a Codec plan
 //   {"k":"scalar"}                             typed scalar helpers at their bounds
@@ -45,6 +46,8 @@
 #include <QTextStream>
 
 #include <algorithm>
+#include <csignal>
+#include <cstring>
 #include <memory>
 #include <unistd.h>
 
@@ -186,6 +189,28 @@ struct Dedup {
     }
 };
 Dedup g_dedup;
+
+// A parser that does not return: SIGALRM ends the process; the handler names the document and the
+// class that was running (async-signal-safe: write() of buffers prepared beforehand).
+char g_hangCase[160] = "";
+const char *volatile g_hangClass = "harness";
+void onAlarm(int)
+{
+    const char *cls = g_hangClass;
+    (void)!write(2, "\nqxv-hang ", 10);
+    (void)!write(2, g_hangCase, strlen(g_hangCase));
+    (void)!write(2, " ", 1);
+    (void)!write(2, cls, strlen(cls));
+    (void)!write(2, "\n", 1);
+    _exit(124);
+}
+QSet<QString> g_skip;   // classes not run any more in this process (already reported as hanging)
+QString g_only;         // confirmation run: this class only
+bool classEnabled(const char *name)
+{
+    const auto n = QString::fromLatin1(name);
+    return !g_skip.contains(n) && (g_only.isEmpty() || g_only == n);
+}
 QMap<int, qint64> g_profile;
 
 void sweep(const QDomElement &root, bool deep, bool wantOwn, Sweep &s)
@@ -204,7 +229,12 @@ void sweep(const QDomElement &root, bool deep, bool wantOwn, Sweep &s)
             if (!isRoot && !c.checked && (!deep || path.count(QChar('/')) > 4)) {
                 continue;
             }
+            if (!classEnabled(c.name)) {
+                continue;
+            }
+            g_hangClass = c.name;
             if (c.checked && !c.admits(el)) {
+                g_hangClass = "harness";
                 continue;
             }
             if (!isRoot || !wantOwn) {
@@ -218,6 +248,7 @@ void sweep(const QDomElement &root, bool deep, bool wantOwn, Sweep &s)
             QElapsedTimer tm;
             tm.start();
             auto p = onePass(c, el);
+            g_hangClass = "harness";
             g_profile[i] += tm.nsecsElapsed();
             if (!p.admitted || p.refused) {
                 continue;
@@ -318,11 +349,13 @@ int feedClient(const QString &xml, QJsonArray &bad)
     QDomDocument doc;
     bool ok = false;
     auto el = parseWrapped(doc, xml, QStringLiteral("jabber:client"), &ok);
-    if (!ok) {
+    if (!ok || !classEnabled("client")) {
         return -1;
     }
+    g_hangClass = "client";
     auto &c = client();
     c.injectElement(el);
+    g_hangClass = "harness";
     const auto sent = c.takeSent(false);
     for (const auto &s : sent) {
         QDomDocument d;
@@ -429,16 +462,39 @@ QDomElement resolve(QDomElement cur, const QJsonArray &path, int off)
 // returns false if the step has nothing to act on in this document
 int g_hugeLength = 70000;  // > 65535; shorter when the plan also nests (the product is what costs)
 
-bool applyStep(QDomDocument &doc, QDomElement &root, const QJsonObject &st, int off)
+// Two addressing modes.  Plans of the abstract tree (multi-step plans of XmlMutateGen): `root` is
+// the element of the seed that takes the place of the abstract root (the anchor), path indices
+// select child (i-1+off) mod n, attributes are chosen by kind.  Position plans ("abs": true,
+// every enabled move of XmlMutate!Moves on the concrete seed): the path, the child index and the
+// attribute name are exact.
+QDomElement resolveExact(QDomElement cur, const QJsonArray &path)
+{
+    for (const auto &pv : path) {
+        cur = childElements(cur).value(pv.toInt() - 1);
+        if (cur.isNull()) {
+            break;
+        }
+    }
+    return cur;
+}
+
+bool applyStep(QDomDocument &doc, QDomElement &root, QDomElement &anchor, const QJsonObject &st, int off)
 {
     const auto op = st["op"].toString();
-    auto cur = resolve(root, st["p"].toArray(), off);
+    const bool exact = st["abs"].toBool();
+    auto cur = exact ? resolveExact(root, st["p"].toArray()) : resolve(anchor, st["p"].toArray(), off);
+    if (cur.isNull()) {
+        return false;
+    }
     auto kids = childElements(cur);
     if (op == "DeleteChild" || op == "DuplicateChild" || op == "SwapSiblings" || op == "MoveUnderSibling") {
         if (kids.isEmpty()) {
             return false;
         }
-        int i = (st["i"].toInt() - 1 + off) % kids.size();
+        int i = exact ? st["i"].toInt() - 1 : (st["i"].toInt() - 1 + off) % kids.size();
+        if (i < 0 || i >= kids.size()) {
+            return false;
+        }
         if (op == "DeleteChild") {
             cur.removeChild(kids[i]);
         } else if (op == "DuplicateChild") {
@@ -448,6 +504,12 @@ bool applyStep(QDomDocument &doc, QDomElement &root, const QJsonObject &st, int 
                 return false;
             }
             int j = (i + 1) % kids.size();
+            if (exact && op == "SwapSiblings" && i + 1 >= kids.size()) {
+                return false;
+            }
+            if (exact && i + 1 >= kids.size()) {
+                j = i - 1;  // the last child moves under its left neighbour
+            }
             if (op == "SwapSiblings") {
                 auto a = kids[i], b = kids[j];
                 auto marker = doc.createElement(QStringLiteral("qxvmarker"));
@@ -460,11 +522,20 @@ bool applyStep(QDomDocument &doc, QDomElement &root, const QJsonObject &st, int 
         }
         return true;
     }
-    if (op == "Renamespace" || op == "Nest") {
+    if (op == "AddUnknownChild") {
+        const auto ns = st["ns"].toString();
+        auto child = ns.isEmpty() ? doc.createElement(QStringLiteral("qxv-unknown")) : doc.createElementNS(ns, QStringLiteral("qxv-unknown"));
+        cur.insertBefore(child, cur.firstChild());
+        return true;
+    }
+    if (op == "Renamespace" || op == "Nest" || op == "Rename") {
         auto parent = cur.parentNode();
         QDomElement outer;
-        if (op == "Renamespace") {
-            outer = doc.createElementNS(QStringLiteral("urn:qxv:foreign"), localOf(cur));
+        if (op == "Renamespace" || op == "Rename") {
+            // an element cannot be renamed in place: a new one takes over attributes and children
+            outer = op == "Renamespace" ? doc.createElementNS(QStringLiteral("urn:qxv:foreign"), localOf(cur))
+                                        : (cur.namespaceURI().isEmpty() ? doc.createElement(QStringLiteral("qxv-unknown"))
+                                                                        : doc.createElementNS(cur.namespaceURI(), QStringLiteral("qxv-unknown")));
             auto am = cur.attributes();
             for (int i = 0; i < am.count(); i++) {
                 auto a = am.item(i).toAttr();
@@ -496,6 +567,9 @@ bool applyStep(QDomDocument &doc, QDomElement &root, const QJsonObject &st, int 
         if (cur == root) {
             root = outer;
         }
+        if (cur == anchor) {
+            anchor = outer;
+        }
         return true;
     }
     // attribute operations
@@ -503,15 +577,29 @@ bool applyStep(QDomDocument &doc, QDomElement &root, const QJsonObject &st, int 
     if (refs.isEmpty()) {
         return false;
     }
-    const auto want = abstractKind(st["a"].toString());
-    QList<AttrRef> cands;
-    for (const auto &r : refs) {
-        if (kindOfValue(r.value) == want) {
-            cands << r;
+    AttrRef target;
+    if (exact) {
+        bool found = false;
+        for (const auto &r : refs) {
+            if (r.name == st["a"].toString()) {
+                target = r;
+                found = true;
+            }
         }
+        if (!found) {
+            return false;
+        }
+    } else {
+        const auto want = abstractKind(st["a"].toString());
+        QList<AttrRef> cands;
+        for (const auto &r : refs) {
+            if (kindOfValue(r.value) == want) {
+                cands << r;
+            }
+        }
+        const auto &pool = cands.isEmpty() ? refs : cands;
+        target = pool[off % pool.size()];
     }
-    const auto &pool = cands.isEmpty() ? refs : cands;
-    const auto target = pool[off % pool.size()];
     if (op == "DropAttr") {
         setValue(cur, target.name, {}, true);
     } else if (op == "EmptyAttr") {
@@ -840,6 +928,11 @@ QXV_DRIVER(codec)
     const int budget = ctx.optInt("alarm", 60);
     g_maxDescent = ctx.optInt("descent", 24);
     g_dump = ctx.opt.contains("dump");
+    for (const auto &s : ctx.opt.value("skip").split(QChar(','), Qt::SkipEmptyParts)) {
+        g_skip.insert(s);
+    }
+    g_only = ctx.opt.value("only");
+    std::signal(SIGALRM, onAlarm);
     int n = 0;
     for (const auto &jv : jobs) {
         const auto job = jv.toObject();
@@ -851,6 +944,7 @@ QXV_DRIVER(codec)
         ctx.out.flush();
         // UBSan reports and continues: a marker on stderr attributes its reports to the job
         fprintf(stderr, "qxv-case %s\n", qPrintable(caseId));
+        qstrncpy(g_hangCase, caseId.toLatin1().constData(), sizeof(g_hangCase));
         alarm(budget);  // a hang ends the process (SIGALRM): "terminates ... within a step budget"
         ctx.cases++;
         QElapsedTimer jobTimer;
@@ -916,9 +1010,17 @@ QXV_DRIVER(codec)
             continue;
         }
 
-        if (kind == "mut") {
-            const auto steps = job["steps"].toArray();
-            const int off = job["off"].toInt();
+        // one mutated document: apply the steps to a copy of the seed, hand the result to the parsers
+        auto runDocument = [&](const QString &docId, const QJsonArray &steps, int off, bool deep, bool withClient, int anchorIndex,
+                               const QString &planText) {
+            auto copy = doc.cloneNode(true).toDocument();
+            auto droot = copy.documentElement().firstChildElement();
+            auto anchor = droot;
+            if (anchorIndex > 0) {
+                QList<QPair<QString, QDomElement>> els;
+                allElements(droot, QString(), els);
+                anchor = els[anchorIndex % els.size()].second;
+            }
             QJsonArray applied;
             int napplied = 0;
             bool nests = false;
@@ -927,28 +1029,155 @@ QXV_DRIVER(codec)
             }
             g_hugeLength = nests ? 5000 : 70000;
             for (const auto &sv : steps) {
-                bool a = applyStep(doc, root, sv.toObject(), off);
+                bool a = applyStep(copy, droot, anchor, sv.toObject(), off);
                 applied.append(a);
                 napplied += a;
             }
             // the mutated tree as a peer would send it: serialize, parse again
-            const auto xml = saveElement(root);
+            const auto xml = saveElement(droot);
             QDomDocument mdoc;
-            auto mroot = parseWrapped(mdoc, xml, QString(), &ok);
+            bool wf = false;
+            auto mroot = parseWrapped(mdoc, xml, QString(), &wf);
             // outside the size bound of the quantifier (HugeAttr multiplied by Nest/DuplicateChild)
             const bool oversize = xml.size() > 300000;
-            if (!ok || napplied == 0 || oversize) {
-                ctx.emit_({ { "e", "Doc" }, { "case", caseId }, { "seed", seed.id }, { "steps", steps }, { "off", off }, { "applied", applied },
-                            { "wfdoc", ok }, { "oversize", oversize }, { "done", true }, { "runs", 0 }, { "admitted", 0 }, { "sent", -1 }, { "bad", QJsonArray() } });
-                continue;
+            if (!wf || napplied == 0 || oversize) {
+                ctx.emit_({ { "e", "Doc" }, { "case", docId }, { "seed", seed.id }, { "steps", steps }, { "off", off }, { "applied", applied },
+                            { "wfdoc", wf }, { "oversize", oversize }, { "done", true }, { "runs", 0 }, { "admitted", 0 }, { "sent", -1 },
+                            { "plan", planText }, { "bad", QJsonArray() } });
+                return;
             }
+            QElapsedTimer docTimer;
+            docTimer.start();
             Sweep s;
-            sweep(mroot, job["deep"].toBool(), false, s);
-            int sent = job["client"].toBool() ? feedClient(xml, s.bad) : -1;
-            ctx.emit_({ { "e", "Doc" }, { "case", caseId }, { "seed", seed.id }, { "steps", steps }, { "off", off }, { "applied", applied },
+            sweep(mroot, deep, false, s);
+            int sent = withClient ? feedClient(xml, s.bad) : -1;
+            ctx.emit_({ { "e", "Doc" }, { "case", docId }, { "seed", seed.id }, { "steps", steps }, { "off", off }, { "applied", applied },
                         { "wfdoc", true }, { "done", true }, { "runs", s.runs }, { "admitted", s.admittedChecked }, { "reorder", s.reorderOnly },
-                        { "sent", sent }, { "size", xml.size() }, { "ms", int(jobTimer.elapsed()) }, { "xml", g_dump ? xml : QString() },
+                        { "sent", sent }, { "size", xml.size() }, { "ms", int(docTimer.elapsed()) }, { "xml", g_dump ? xml : QString() },
+                        { "plan", planText },
                         { "h", QString::fromLatin1(QCryptographicHash::hash(xml.toUtf8(), QCryptographicHash::Sha1).toHex().left(12)) }, { "bad", s.bad } });
+        };
+
+        if (kind == "mut") {
+            // a plan of the abstract tree, anchored at an element of the seed
+            QStringList ops;
+            const auto steps = job["steps"].toArray();
+            for (const auto &sv : steps) {
+                const auto so = sv.toObject();
+                ops << so["op"].toString() + (so.contains("ns") ? QChar('(') + so["ns"].toString() + QChar(')') : QString());
+            }
+            runDocument(caseId, steps, job["off"].toInt(), job["deep"].toBool(), job["client"].toBool(), job["anchor"].toInt(),
+                        ops.join(QChar('+')) + QStringLiteral("@anchor%1").arg(job["anchor"].toInt()));
+            continue;
+        }
+
+        if (kind == "pos") {
+            // every enabled one-step move of XmlMutate!Moves on the concrete seed: every element, every
+            // attribute, every character-data position.  heavy: HugeAttr and Nest(2), Nest(3) at every
+            // heavyEvery-th position (1 = everywhere, 0 = nowhere); from: resume behind a crashed document.
+            // rot: rotation of the sampled positions and of the value tables; part of the job, so that a
+            // restarted or confirming process numbers the documents of the job identically
+            const int rot = job["rot"].toInt();
+            const int heavyEvery = job["heavyEvery"].toInt();
+            // second-line moves (DuplicateChild, SwapSiblings, MoveUnderSibling, Renamespace, Nest(3), EmptyAttr): at
+            // every secondEvery-th position (1 = everywhere)
+            const int secondEvery = qMax(1, job["secondEvery"].toInt(1));
+            const int from = job["from"].toInt();
+            const bool withClient = job["client"].toBool();
+            QList<QPair<QString, QDomElement>> els;
+            allElements(root, QChar('/') + root.tagName(), els);
+            // concrete child-index paths
+            QList<QJsonArray> paths;
+            for (const auto &pe : els) {
+                QJsonArray p;
+                QList<int> rev;
+                for (auto e = pe.second; e != root; e = e.parentNode().toElement()) {
+                    int idx = 1;
+                    for (auto s = e.previousSiblingElement(); !s.isNull(); s = s.previousSiblingElement()) {
+                        idx++;
+                    }
+                    rev.prepend(idx);
+                }
+                for (int x : rev) {
+                    p.append(x);
+                }
+                paths << p;
+            }
+            QList<QPair<QJsonObject, QString>> plans;
+            int position = 0;
+            for (int k = 0; k < els.size(); k++) {
+                const auto &where = els[k].first;
+                const auto &e = els[k].second;
+                const auto p = paths[k];
+                const bool heavy = heavyEvery > 0 && (position + si + rot) % heavyEvery == 0;
+                const bool second = (position + si + rot) % secondEvery == 0;
+                position++;
+                auto add = [&](QJsonObject st, const QString &suffix = QString()) {
+                    st["abs"] = true;
+                    plans << qMakePair(st, st["op"].toString() + QChar(':') + where + suffix);
+                };
+                if (!p.isEmpty()) {
+                    QJsonArray pp = p;
+                    const int i = pp.last().toInt();
+                    pp.removeLast();
+                    const int nsib = childElements(e.parentNode().toElement()).size();
+                    add({ { "op", "DeleteChild" }, { "p", pp }, { "i", i } });
+                    if (second) {
+                        add({ { "op", "DuplicateChild" }, { "p", pp }, { "i", i } });
+                        if (i < nsib) {
+                            add({ { "op", "SwapSiblings" }, { "p", pp }, { "i", i } });
+                        }
+                        if (nsib >= 2) {
+                            add({ { "op", "MoveUnderSibling" }, { "p", pp }, { "i", i } });
+                        }
+                    }
+                    add({ { "op", "Rename" }, { "p", p } });
+                }
+                if (second) {
+                    add({ { "op", "Renamespace" }, { "p", p } });
+                    add({ { "op", "Nest" }, { "p", p }, { "d", 1 } }, QStringLiteral("*3"));
+                }
+                if (heavy) {
+                    add({ { "op", "Nest" }, { "p", p }, { "d", 2 } }, QStringLiteral("*8"));
+                    add({ { "op", "Nest" }, { "p", p }, { "d", 3 } }, QStringLiteral("*24"));
+                }
+                for (const auto &a : attrRefs(e)) {
+                    const bool heavyA = heavyEvery > 0 && (position + si + rot) % heavyEvery == 0;
+                    const bool secondA = (position + si + rot) % secondEvery == 0;
+                    position++;
+                    const auto suffix = (a.name == QLatin1String("#text") ? QString() : QStringLiteral("@")) + a.name;
+                    const auto vk = kindOfValue(a.value);
+                    add({ { "op", "DropAttr" }, { "p", p }, { "a", a.name } }, suffix);
+                    if (secondA) {
+                        add({ { "op", "EmptyAttr" }, { "p", p }, { "a", a.name } }, suffix);
+                    }
+                    if (heavyA) {
+                        add({ { "op", "HugeAttr" }, { "p", p }, { "a", a.name } }, suffix);
+                    }
+                    if (vk == QLatin1String("num")) {
+                        add({ { "op", "NegativeAttr" }, { "p", p }, { "a", a.name } }, suffix);
+                    }
+                    if (vk == QLatin1String("num") || a.name == QLatin1String("#text")) {
+                        add({ { "op", "NonNumericAttr" }, { "p", p }, { "a", a.name } }, suffix);
+                    }
+                    if (vk == QLatin1String("enum")) {
+                        add({ { "op", "UnknownEnum" }, { "p", p }, { "a", a.name } }, suffix);
+                    }
+                }
+            }
+            ctx.emit_({ { "e", "Positions" }, { "case", caseId }, { "seed", seed.id }, { "elements", els.size() }, { "positions", position },
+                        { "plans", plans.size() }, { "from", from } });
+            const int upto = job["upto"].toInt() > 0 ? qMin(job["upto"].toInt(), plans.size()) : plans.size();
+            for (int n2 = from; n2 < upto; n2++) {
+                const auto docId = caseId + QChar('.') + QString::number(n2);
+                ctx.emit_({ { "e", "Begin" }, { "case", docId }, { "seed", seed.id }, { "src", seed.src }, { "plan", plans[n2].second } });
+                ctx.out.flush();
+                fprintf(stderr, "qxv-case %s\n", qPrintable(docId));
+                qstrncpy(g_hangCase, docId.toLatin1().constData(), sizeof(g_hangCase));
+                alarm(budget);
+                TestClient::resetIdCounter();
+                runDocument(docId, QJsonArray { plans[n2].first }, si * 131 + n2 + rot, false, withClient, 0, plans[n2].second);
+            }
             continue;
         }
         ctx.emit_({ { "e", "Skip" }, { "case", caseId }, { "why", "unknown job kind" } });
